@@ -2,6 +2,10 @@
   C03 — Encoder output is well-formed, deterministic, shortest-form CBOR.
   Property theorems only.  `head maj n` is the RFC 8949 preferred (shortest) head and
   `encPref` the preferred definite-length serialisation of a data-model value (Wire.lean).
+  This file: every single Encoder method, ArrayIter/MapIter.  `Thm/C03Builtin.lean`: every built-in
+  `Encode` impl.  `Thm/C03Ops.lean`: balanced sequences of Encoder calls (`ops_denote`, `ops_denote_single`,
+  `ops_shortest`, `ops_reference`, `ops_complete`) — a separate file because the per-head lemmas it reuses
+  (`Lemmas/TokenEnc.lean`) import this one.
 -/
 import Minicbor.Wire
 import Minicbor.Encoder
